@@ -4,6 +4,7 @@ import json, os
 ROOT = os.path.dirname(os.path.dirname(os.path.abspath(__file__)))
 TRUST = 'xmlsec1 is absent from the sandbox and replaced at saml2_tophat.sigver.Popen by the environment model vp/xmlsec.py (DESIGN 4); virtual clock and deterministic id source (vp/env.py); bounds as stated in evidence.'
 CHECKS = {
+ 'C03': ('exploration', 'Complete product table over forged federations: metadata layout of the claimed issuer x claimed Issuer x actual signing key x embedded KeyInfo x signed element x only_use_keys_in_metadata, each validly-signed-by-that-key document through the real SP; acceptance is allowed only by the formula transcribed from the statement.', '7 C03', 'exhaustive product-table enumeration on the real SP path', TRUST),
  'C06': ('exploration', 'Complete product table of top-level status x second-level code (absent, 21 standard, unknown) x StatusMessage x payload, and the Version dimension on responses and on three request types over three bindings, through the real SP/IdP; the observed exception class is compared with an independent copy of the status-code table.', '7 C06', 'exhaustive product-table enumeration on the real SP/IdP paths', TRUST),
  'C05': ('exploration', 'Complete product table of response InResponseTo x confirmation InResponseTo x Destination x AudienceRestriction layouts x Recipient x plain/encrypted (x bindings in thorough), each forged signed document run through the real SP under all 8 settings of allow_unsolicited x conversation-info x destination pattern; one-directional oracle from the four necessary conditions of the statement plus came_from.', '7 C05', 'exhaustive product-table enumeration on the real SP path', TRUST),
  'C04': ('exploration', 'Complete grid under the virtual clock: every subset of the five optional time bounds (plus session-earlier, wide and inverted shapes) x timestamp spellings x allowance values x placements of now around every allowance-shifted edge and the +-1 day IssueInstant window, each cell through the real SP; oracle is interval arithmetic on the forged values with a 1 s dead zone; both the reject-required and the accept-required side and the session expiry are compared.', '7 C04', 'exhaustive product-grid enumeration under a controlled clock on the real SP path', TRUST),
